@@ -708,7 +708,8 @@ SPEC = {
     'compare': compare,
     'classify': classify,
     'partial_note': 'rung 1 and rung 2 complete (every spelling of every object incl. fillers in composites, indirect objects, trailer; the two open '
-                    'findings excluded by their classes), rung 3 (C02_full, whole files) stated only',
+                    'findings excluded by their classes), rung 3 proved for the cross-reference table format (C02_loads_table_partial), '
+                    'stated for cross-reference streams / object streams / indirect Length (C02_full)',
     'rule': '(style, abstract document) pairs: 1-12 objects of every kind nested to depth 3 with adversarial bytes in names and strings, '
             'streams with direct or indirect Length; styles randomise fillers (6 white-space bytes, comments with every EOL), name escapes, '
             'literal/hex string spellings (octal 1-3 digits, short escapes, ignored backslash, continuations, raw EOLs, hex white-space, odd '
@@ -727,11 +728,13 @@ MANIFEST = {
                   'ASCIIHexDecode round trips; rung 2: for every style tree of the reference writer (fillers at every token boundary, every '
                   'spelling of names, strings incl. raw balanced parentheses, integers, reals (value-preserving), references, arrays and '
                   'dictionaries at any nesting the parser allows) parser::direct_object, the indirect-object parser and the trailer parser '
-                  'return the denoted object; whole-file loading (C02_full, stated in Props/C02.v) is checked by correspondence against '
-                  'an independent reference writer extracted from Coq',
-    'level_note': 'partial: the whole-file theorem (file frame: startxref search, offsets, read_entries) is not proved (notes/C02.md); open '
-                  'findings C02-raw-eol (raw CR in literal strings) and C02-deep-parens (nesting above 100) are excluded by decidable '
-                  'classes on the input',
+                  'return the denoted object; rung 3: Reader::read (Model/Loader.v) loads every reference file with a cross-reference '
+                  'table (junk before the header, objects in any order, any sectioning, any end-of-lines) to exactly the document it '
+                  'defines; files with cross-reference streams / object streams (C02_full, stated) are checked by correspondence '
+                  'against an independent reference writer extracted from Coq',
+    'level_note': 'partial: the whole-file theorem is proved for the table format only (cross-reference streams, object streams, indirect '
+                  'Length: notes/C02.md); open findings C02-raw-eol (raw CR in literal strings) and C02-deep-parens (nesting above 100) '
+                  'are excluded by decidable classes on the input',
     'technique': 'Coq proofs over Gallina models of xref.rs / parser_aux.rs / object_stream.rs / the xref table parser / the token '
                  'parsers; differential check of the models on valid and malformed inputs; reference PDF writer in Gallina '
                  '(Spec/RefWriter.v) extracted to OCaml feeds Document::load_mem and Model/Loader.v',
